@@ -16,6 +16,9 @@ use std::sync::{Arc, Mutex};
 use std::time::Duration;
 
 pub const PROP: &str = "C18";
+/// instruction budget of one operation run alone (operations heavier than 20k instructions are
+/// dropped from scenarios anyway; this only stops an operation that spins)
+const SOLO_INSN_BUDGET: u64 = 50_000_000;
 
 /// Compile-time part of the property. If `/repo` still builds but this module does not, the
 /// `check` script reports the build failure as the violation (it greps for this module's name).
@@ -289,13 +292,15 @@ fn exec_op_inner(re: &Regex, text: &str, op: &Op) -> String {
 
 /// Every call alone, single-threaded, on a freshly compiled regex.
 pub fn solo_results(sc: &Scenario) -> Option<Vec<Vec<String>>> {
-    verif::set_yield_hook(None);
+    budget::install();
     let mut out = Vec::new();
     for ops in &sc.threads {
         let mut v = Vec::new();
         for op in ops {
             let re = sc.regexes[op.re].build()?;
+            budget::arm(SOLO_INSN_BUDGET, 100_000);
             v.push(exec_op(&re, &sc.texts[op.text], op));
+            budget::disarm();
         }
         out.push(v);
     }
@@ -477,13 +482,18 @@ fn gen_scenario(rng: &mut Rng, max_threads: usize) -> Option<Scenario> {
 /// pass), and drop operations that are too heavy for a concurrency workload.
 fn place_faults_and_trim(sc: &mut Scenario, rng: &mut Rng) -> u64 {
     let mut est_decisions = 0u64;
-    verif::set_yield_hook(None);
+    budget::install();
     for t in 0..sc.threads.len() {
         let mut keep = Vec::new();
         for op in sc.threads[t].clone() {
             let Some(re) = sc.regexes[op.re].build() else { continue };
             verif::record_run_stats(true);
-            let _ = exec_op(&re, &sc.texts[op.text], &op);
+            budget::arm(SOLO_INSN_BUDGET, 100_000);
+            let probe = exec_op(&re, &sc.texts[op.text], &op);
+            budget::disarm();
+            if probe.contains("frsim-budget") {
+                continue; // spins or far too heavy alone: not a concurrency workload
+            }
             let runs = verif::take_run_stats();
             verif::record_run_stats(false);
             let insns: u64 = runs.iter().map(|r| r.insns + r.backtracks).sum();
